@@ -30,3 +30,16 @@ Proof.
   - intros H. apply Hok, az_representable_reflect, H.
   - intros H. apply Herr. intros Hr. apply az_representable_reflect in Hr. congruence.
 Qed.
+
+From Verif Require Import EanSpec QRSpec.
+
+Lemma qr_capacity_examples :
+  qr_representable (repeat 55 7089) 0 1 = true /\ qr_representable (repeat 55 7090) 0 1 = false
+  /\ qr_representable (repeat 65 4296) 0 2 = true /\ qr_representable (repeat 65 4297) 0 2 = false
+  /\ qr_representable (repeat 97 2953) 0 3 = true /\ qr_representable (repeat 97 2954) 0 3 = false.
+Proof. vm_compute. repeat split. Qed.
+
+Lemma c10_examples :
+  az_in_domain c03_hello 33 /\ az_representable_b c03_hello 33 0 = true
+  /\ ean_representable [53; 57; 48; 49; 50; 51; 52] = true.
+Proof. split; [exact az_c03_example_domain|]. split; vm_compute; reflexivity. Qed.
